@@ -84,6 +84,18 @@ func (n *vnode) real() cmp.Value {
 	return cmp.ValueOr(ks...)
 }
 
+// leaves lists the tolerance leaves of the expression.
+func (n *vnode) leaves() []*vnode {
+	if len(n.Kids) == 0 && n.Op != "and" && n.Op != "or" {
+		return []*vnode{n}
+	}
+	var out []*vnode
+	for _, k := range n.Kids {
+		out = append(out, k.leaves()...)
+	}
+	return out
+}
+
 func (n *vnode) has(op string) bool {
 	if n == nil {
 		return false
